@@ -262,7 +262,12 @@ pub fn gen_mapset(r: &mut Rng, cfg: &GenCfg) -> MapSet {
             // nested under an existing class (present), or under an absent outer class
             let outer = if r.chance(80) { r.pick(&keys).clone() } else { gen_class_name(r, cfg.unicode) };
             let simple = if r.chance(30) { r.range(1, 9).to_string() } else { gen_ident(r, cfg.unicode) };
-            format!("{outer}${simple}")
+            if r.chance(12) {
+                // the direct outer class is absent although a class further out may be present (an orphan at depth >= 2)
+                format!("{outer}${}${simple}", gen_ident(r, cfg.unicode))
+            } else {
+                format!("{outer}${simple}")
+            }
         } else {
             gen_class_name(r, cfg.unicode)
         };
